@@ -119,6 +119,9 @@ def generate(tape, tier="quick"):
         sc = gen_e1(tape, tier, allow_cycles=tape.chance(1, 3), pull_fanout=False, allow_delay_push=False)
         sc["engine"] = "E1X"
         sc["limits"] = sorted({0, 8, tape.choice([16, 24, 40, 64, 200])})
+        # a second composition sharing the spill location is built BEFORE this one runs and is run after it was
+        # finalized (several compositions in one process default to the same location)
+        sc["shared_location"] = tape.chance(1, 3)
         return sc
     slot = tape.choice(["output", "output", "next", "prev", "linear", "step", "avg", "sum", "sum_abs"])
     gridded = tape.chance(1, 2)
@@ -300,6 +303,31 @@ def limits_for(sc):
     return sorted(lims)
 
 
+def _sibling_composition(lim, root):
+    import finam as fm
+    from datetime import timedelta
+    from finam.components import CallbackGenerator, DebugConsumer
+    got = []
+    gen = CallbackGenerator({"o": (lambda t: float((t - dt(0)) / timedelta(hours=1)), fm.Info(time=None, grid=fm.NoGrid(), units=""))},
+                            dt(0), timedelta(hours=1))
+    con = DebugConsumer({"i": fm.Info(time=None, grid=fm.NoGrid(), units="")}, start=dt(0), step=timedelta(hours=3),
+                        callbacks={"i": lambda n, d, t: got.append(((t - dt(0)) / timedelta(hours=1), float(d.magnitude.reshape(-1)[0])))})
+    comp = fm.Composition([gen, con], print_log=False, log_level=50, slot_memory_limit=lim, slot_memory_location=root)
+    gen.outputs["o"] >> con.inputs["i"]
+    return comp, got
+
+
+def _run_sibling(sib):
+    comp, got = sib
+    try:
+        comp.run(end_time=dt(9))
+    except Exception as e:      # noqa: BLE001
+        return f"run raised {type(e).__name__}: {str(e)[:200]}"
+    if [g for g in got if abs(g[0] - g[1]) > 1e-9] or len(got) < 4:
+        return f"delivered {got}"
+    return None
+
+
 def execute_e1(sc):
     from ..monitor import run_e1
     viol = []
@@ -315,7 +343,15 @@ def execute_e1(sc):
             os.makedirs(root, exist_ok=True)
             seam = Seam(root)
             with seam_installed(seam):
+                sib = _sibling_composition(lim, root) if sc.get("shared_location") else None
                 r = run_e1(dict(base, mem_limit=lim), scratch=root, value_check=False)
+                if sib is not None:
+                    msg = _run_sibling(sib)
+                    if msg:
+                        viol.append({"oracle": "spill-differs", "kind": "shared-location", "msg":
+                                     f"slot_memory_limit={lim}: a second composition sharing the spill location, built before "
+                                     f"and run after this one: {msg}"})
+                        break
             saves += sum(1 for x in seam.calls if x[0] == "save")
             loads += sum(1 for x in seam.calls if x[0] == "load")
             outcomes.append((lim, r["obs"]["status"], r["obs"]["exc"]))
